@@ -47,7 +47,16 @@ pub extern "C" fn tsrun_fulfill_orders(
             let result = if resp.error.is_null() {
                 // Success case
                 if let Some(val) = resp.value.as_ref() {
-                    Ok(RuntimeValue::unguarded(val.value().clone()))
+                    // The stored response must keep an object alive on its own: the host may
+                    // release its handle right after this call, before the script resumes
+                    let value = val.value().clone();
+                    if let JsValue::Object(ref obj) = value {
+                        let guard = ctx.interp.heap.create_guard();
+                        guard.guard(obj.cheap_clone());
+                        Ok(RuntimeValue::with_guard(value, guard))
+                    } else {
+                        Ok(RuntimeValue::unguarded(value))
+                    }
                 } else {
                     Ok(RuntimeValue::unguarded(JsValue::Undefined))
                 }
